@@ -515,9 +515,11 @@ class Tamper(c05.History):
                     own = name in ("spent_script:%d" % i, "spent_amount:%d" % i, "unlock_script:%d" % i) or cls in ("drop_unspent", "truncate_unspents")
                     if base_dig[i] is not None and dig[i] is not None and not own:
                         if dig[i] == base_dig[i] and base_ref[i] and not ref[i]:
-                            rec.violation("oracle.commitment_inconsistent.unchanged_digest_but_invalid", case, name, i)
+                            rec.ev("inconclusive:oracle.commitment_inconsistent.unchanged_digest_but_invalid")
+                            rec.note("reference oracle contradicts itself (unchanged digest but invalid): %s input %d coord %r" % (name, i, case.get("coord")))
                         if dig[i] and base_dig[i] and not (dig[i] & base_dig[i]) and ref[i]:
-                            rec.violation("oracle.commitment_inconsistent.changed_digest_but_valid", case, name, i)
+                            rec.ev("inconclusive:oracle.commitment_inconsistent.changed_digest_but_valid")
+                            rec.note("reference oracle contradicts itself (changed digest but valid): %s input %d coord %r" % (name, i, case.get("coord")))
             # statelessness: a fresh object gives the same verdicts
             if all(u is not None for u in tx.unspents) and len(tx.unspents) == len(tx.txs_in) and len(tx.txs_in) > 0:
                 st, fresh = observe(self.fresh_verdicts)
